@@ -219,6 +219,27 @@ CHECKS["C12"] = dict(
     technique="Lean 4 proof (search coverage by arithmetic on the translated loop bound, edge consistency, interpolation laws) + translator + Float correspondence + exact-arithmetic point-location oracle on the real post-processors",
 )
 
+CHECKS["C19"] = dict(
+    category="proof",
+    text=("Lean theorems over Model/BHCurve.lean (GetH / GetdHdB / GetEnergy / GetBHProps piecewise cubic evaluation, the "
+          "spline equations, bad-segment test, smoothing repair and fill-factor transform of GetSlopes): the cubic takes the "
+          "table values and slopes at every knot of any increasing table (H and its slope single-valued: C1), the energy "
+          "pieces and the tail join continuously; over the reals the reported slope IS the derivative of the reported H and "
+          "the energy has the reported H as derivative inside and beyond the table (so it is the integral of H dB); a segment "
+          "that passes the closed-formula root test of GetSlopes carries a non-decreasing H (intermediate-value + mean-value "
+          "argument); on a straight-line table the constant slope solves the spline equations and H, slope, energy and "
+          "(v, dv) are exactly those of the linear material. Tied to the code by running the real CMSolverMaterialProp "
+          "in-process against the model at Float: evaluation bit for bit on the implementation's final table, the model's whole "
+          "construction loop ending on the same table (same smoothing passes), the implementation's slopes in the model's "
+          "spline equations. Decided on the real code by exact / cubic-exact oracles (rational minimum of the slope polynomial "
+          "per segment, Richardson derivative, Simpson integral, knots +-1 ulp, tail) over nine table shapes x lamination x "
+          "fill, construction time limit, and through the real fsolver: straight-line tables vs linear material (potentials, "
+          "energy) and termination on saturating tables. PARTIAL: termination of the smoothing loop and of the Newton "
+          "iteration is observed with a time limit, not proved; harmonic effective curves are not modelled."),
+    design_ref="DESIGN.md section 3, C19",
+    technique="Lean 4 proof (Hermite identities by ring, HasDerivAt for slope and energy, IVT/MVT monotonicity from the root test, linear reduction) + bit-exact Float correspondence with CMSolverMaterialProp + exact-arithmetic oracles on the real code and paired fsolver runs",
+)
+
 NOT_YET = "check not built yet in this round; planned per DESIGN.md section 3 (Lean model + correspondence)"
 
 
